@@ -54,7 +54,31 @@ type ctx struct {
 }
 
 func newCtx(n int) *ctx {
-	return &ctx{A: world.Honest(n), forged: map[int]*world.SignedLog{}, warm: map[string]map[string][]byte{}}
+	x := &ctx{A: world.Honest(n), forged: map[int]*world.SignedLog{}, warm: map[string]map[string][]byte{}}
+	// some of the large honest logs (sizes used only there) have unusual but legitimate content
+	if n == 64 || n == 257 {
+		// records with very long lines (other modules' lines before, between and after the ones looked
+		// up): the record text has no length limit
+		mods := append([]world.Mod(nil), x.A.Mods...)
+		long := "long.example/l v1.0.0 h1:" + strings.Repeat("A", 70000) + "\n"
+		for i := range mods {
+			lines := strings.SplitAfter(string(mods[i].Text), "\n")
+			switch i % 4 {
+			case 0:
+				mods[i].Text = []byte(long + string(mods[i].Text))
+			case 1:
+				mods[i].Text = []byte(lines[0] + long + strings.Join(lines[1:], ""))
+			case 2:
+				mods[i].Text = []byte(string(mods[i].Text) + long)
+			}
+		}
+		x.A = world.NewSignedLog(mods)
+	}
+	if n == 33 || n == 300 {
+		// signed heads with extension lines: format characters, and a line longer than 64 KiB
+		x.A.DefaultExtra = "operator note: 100% %s %d {} \\ \u00e9\n" + strings.Repeat("L", 70000) + "\n"
+	}
+	return x
 }
 
 func (x *ctx) forgedLog(id int) *world.SignedLog {
@@ -801,18 +825,14 @@ func Run(r *fw.Run) {
 		fw.Parallel(len(bigs), func(i int) {
 			b := bigs[i]
 			x := newCtx(b.n)
-			if b.n == 33 || b.n == 300 {
-				// signed heads with extension lines: format characters, and a line longer than 64 KiB
-				x.A.DefaultExtra = "operator note: 100% %s %d {} \\ \u00e9\n" + strings.Repeat("L", 70000) + "\n"
-			}
 			l := fw.NewLocal()
 			defer r.Merge(l)
 			for _, s0 := range []int{-1, 1, b.n / 2, b.n} {
 				for _, cache := range []string{"cold", "warm-full"} {
 					for _, recs := range [][]int{{0}, {b.n - 1}, {b.n / 2, 1}, {1, b.n - 1}} {
 						c := caseT{N: b.n, H: b.h, S0: s0, Cache: cache}
-						for _, rec := range recs {
-							c.Lookups = append(c.Lookups, lookupT{Rec: rec})
+						for k, rec := range recs {
+							c.Lookups = append(c.Lookups, lookupT{Rec: rec, GoMod: k%2 == 1 || s0 == 1})
 						}
 						l.States++
 						l.Execs++
